@@ -193,18 +193,24 @@ def run(ctx):
         for _, f in lst:
             dist["reasons"][f] = dist["reasons"].get(f, 0) + 1
         reqs.append({"op": "prune", "tree": orig, "strict": strict})
-        metas.append((case, res, lst))
+        # the discarded subtrees themselves, as they are when they leave the tree (model: removedT; the returned list is a
+        # permutation of their roots - theorem C15_list_is_removed)
+        gone = sorted([n.id, family(r), impl.snapshot(n)] for n, r in pruned)
+        metas.append((case, res, lst, gone))
         if len(samples) < 3 and 1 <= len(lst) <= 3 and len(json.dumps(orig)) < 1500:
             samples.append({"tree": orig, "strict": strict, "pruned": lst})
     unspec = 0
     if ctx.driver:
         outs = ctx.driver.batch(reqs)
-        for (case, res, lst), m in zip(metas, outs):
+        for (case, res, lst, gone), m in zip(metas, outs):
             if m.get("unspec"):
                 unspec += 1
                 continue
             if m["tree"] != res or m["pruned"] != lst:
                 diffs.append({"case": case, "impl": {"pruned": lst}, "model": {"pruned": m["pruned"], "tree_equal": m["tree"] == res}})
+            elif sorted(m["removed"]) != gone:
+                diffs.append({"case": case, "impl": {"removed_subtrees": [g[:2] for g in gone]}, "model": {"removed_subtrees": [g[:2] for g in sorted(m["removed"])]},
+                              "what": "the discarded subtrees differ from the model's (removedT) in content"})
     return {"evaluations": N, "distinct_nontrivial": N - dist["nothing_removed"],
             "rule": "rule-guided valid trees (depth 1-3) rooted at known elements with 0-5 plants: unknown elements (also adjacent to a misplaced known one), misplaced known elements, "
                     "invalidated nodes (dropped child, content, attribute), software/protocol under eml; both modes; non-trivial = something was removed",
